@@ -22,6 +22,7 @@ V(t, n, s) == [t |-> t, v |-> D(n, s)]
 Calls == { [op |-> "set", a |-> V(AT_RES, 8, 1)], [op |-> "set", a |-> V(AT_RES, 5, 2)], [op |-> "set", a |-> V(AT_RES, 300, 3)], [op |-> "set", a |-> V(AT_RES, 3, 4)],
            [op |-> "set", a |-> V(AT_KDF_INPUT, 12, 5)], [op |-> "set", a |-> V(AT_KDF_INPUT, 9, 6)], [op |-> "set", a |-> V(AT_RAND, 16, 7)],
            [op |-> "set", a |-> V(AT_RAND, 15, 8)], [op |-> "set", a |-> V(AT_MAC, 16, 9)], [op |-> "set", a |-> V(AT_KDF, 3, 10)],
+           [op |-> "set", a |-> V(AT_CHECKCODE, 20, 11)],       \* (with AT_RES a second type the received packet did not carry)
            [op |-> "marshal", a |-> V(0, 0, 0)], [op |-> "calc", a |-> V(0, 0, 0)] }
 Accepted(a) == AkaValueOk(a)
 Put(as, a) == AttrMap(Append(as, a), << >>)
